@@ -1,6 +1,6 @@
 From Coq Require Extraction.
 From Coq Require Import ExtrOcamlBasic.
-From AIT Require Import Base.Vio C14.Model C14.Spec C14.ModelAlg C14.ModelDDN C14.Model2D C14.ModelLearn.
+From AIT Require Import Base.Vio C14.Model C14.Spec C14.ModelAlg C14.ModelDDN C14.Model2D C14.ModelLearn C14.SpecSparse.
 Extraction "model.ml" vio_kit factorSpace toIndex toFactors factorSpacePartial toIndexPartial toFactorsPartial toIndexPartialPF
   checkTag removeFactor merge_keys_matches merge_keys merge_pf merge_vals match_pf match_f_pf match_keys match_pairs
   toIndexPartialKPF toIndexPF toIndexPartialAndSkip
@@ -11,4 +11,5 @@ Extraction "model.ml" vio_kit factorSpace toIndex toFactors factorSpacePartial t
   graph_new graph_push getIds getId getIdP getIdsRev getSize getPartialSize getPartialSizeA
   getTransitionProbability getTransitionProbabilityP backProject
   toFactorsOut getValue2D getValueW2D scaleW2D scale2D plusEqualSubset2D plusEqual2D plusEqualFM
-  jal_new jal_step flat_exp ql_step qzero coop_norm coop_step bp_step flattened_reward fbandit_reward sampleSRs_rewards expectedReward sparse_step rule_matches tables_are_probabilities row_is_probability.
+  jal_new jal_step flat_exp ql_step qzero coop_norm coop_step bp_step flattened_reward fbandit_reward sampleSRs_rewards expectedReward sparse_step rule_matches tables_are_probabilities row_is_probability
+  flatQ sparse_qvalue td_share pf_index.
